@@ -94,7 +94,8 @@ def oracle(sc, res):
 
 def run(out, tier, rng, work):
     import items, scen, sprop
-    out.rule = ('histories of up to 6 operations mixing failures (wrong key, refusal at the proceed callback, error response with defined and undefined error codes and EDCP 6/7, absent server) and successes on the same objects; oracle: nothing reaches the application and no data is served without the right key; every failure is raised to the caller naming the error code (timeout: "No response"); every well-formed operation after failures succeeds; non-trivial = the client finished at least one operation')
+    out.rule = ('histories of up to 6 operations mixing failures (wrong key, refusal at the proceed callback, error response with defined and undefined error codes and EDCP 6/7, absent server) and successes on the same objects; oracle: nothing reaches the application and no data is served without the right key; every failure is raised to the caller naming the error code (timeout: "No response"); every well-formed operation after failures succeeds; non-trivial = the client finished at least one operation'
+                ' The first 16 histories are directed: each failure kind, with and without seed/key, followed by a well-formed read and write.')
     out.assumptions = ['A1-A6 of DESIGN.md section 3', 'the serving side (DM14Server + serving half of MemoryAccess + the CA subscriber list) is modelled as a state machine (theories/Dm14Srv.v) and tied to the code by operation-sequence correspondence; the client (Dm14Query) and the transport under ca.send_pgn are not: transactions end to end are run on the real code (testing)']
     out.extra['partial'] = ['T18.3 (recovery after a failed operation, on both sides) not proved: checked on the real code by the oracle; client-side exceptions naming the error code: item level + oracle; server side key gate proved for every state']
     C.std_proof_stage(out, 'C18', FILES)
